@@ -12,6 +12,8 @@ from fractions import Fraction
 import numpy as np
 import z3
 
+z3.set_param('timeout', 120000)     # safety net: no solver call without a time limit
+
 EXP = z3.Function('exp', z3.RealSort(), z3.RealSort())
 LOG = z3.Function('log', z3.RealSort(), z3.RealSort())
 POW = z3.Function('pow', z3.RealSort(), z3.RealSort(), z3.RealSort())
